@@ -84,7 +84,7 @@ theorem permute_drop (stage : Nat) (row : Row) (places : Places) :
     | nil => rfl
     | cons a rest =>
       cases stage with
-      | zero => simp [permuteAux]; cases rest with
+      | zero => simp; cases rest with
         | nil => simp [permuteAux]
         | cons b r => cases r <;> simp [permuteAux]
       | succ n =>
